@@ -30,6 +30,8 @@ pub enum PlanDesc {
     Service,
     /// `n` same-class instances under one Folder (long columns and referent arrays)
     Wide { n: usize },
+    /// one incompressible byte string of `n` bytes (a chunk stored in more than 16 MiB)
+    Huge { n: usize },
     /// two instances of an unknown class carrying values a, b of the alphabet of `ty` (every wire type's layout)
     TypePair { ty: String, a: usize, b: usize },
 }
@@ -90,6 +92,11 @@ pub fn plan_of(d: &PlanDesc) -> Plan {
         }
         PlanDesc::Wide { n } => {
             let mut p = crate::codec::build_plan(&crate::codec::CaseDesc::Wide { n: *n }, Codec::Binary);
+            p.roots = RootSel::Nodes(vec![]);
+            p
+        }
+        PlanDesc::Huge { n } => {
+            let mut p = crate::codec::build_plan(&crate::codec::CaseDesc::Many { kind: "hugeblob".into(), n: *n }, Codec::Binary);
             p.roots = RootSel::Nodes(vec![]);
             p
         }
@@ -469,6 +476,16 @@ pub fn cases(tier: Tier) -> Vec<Case04> {
                 e.referents = (0..total).map(|i| 5 + (total - 1 - i) * 2).collect();
             }
             out.push(Case04 { plan: pd.clone(), enc: e, dim: "wide-column".into() });
+        }
+    }
+    // a chunk whose stored form exceeds 16 MiB, in every storage form
+    {
+        let pd = PlanDesc::Huge { n: 17_000_000 };
+        let plan = plan_of(&pd);
+        for comp in [Comp::None, Comp::Lz4Literal, Comp::Lz4, Comp::ZstdRaw, Comp::Zstd] {
+            let mut e = enc::base_encoding(&plan);
+            e.comp = vec![comp];
+            out.push(Case04 { plan: pd.clone(), enc: e, dim: "huge-chunk".into() });
         }
     }
     // every wire type's layout, as the document describes it, for every alphabet value (in a two-instance column)
